@@ -993,6 +993,7 @@ def class_state_text(cc: ClassCtx):
     for a, t in cc.state.items():
         f = lean_field(a)
         out.append('  %s : %s%s' % (f, show_type(t, cc.unit), '' if f == a else '    -- ' + a))
+    out.append('deriving DecidableEq')
     return '\n'.join(out) + '\n'
 
 
